@@ -84,7 +84,10 @@ theorem consistentIvs_iff (S : List Iv) : consistentIvs S = true ↔ ConsistentS
 structure LinkClass (g : MG Name) (o c : Event) (comps : List (List Var)) : Prop where
   comps_ok : condComps g o c = .ok comps
   oneWorld : ∀ a ∈ comps.flatten, ∀ b ∈ comps.flatten, a.name = b.name → a = b
-  found : OutcomesFound g o c = true
+  /-- every outcome is a member of the components under its own (raw) name, i.e. is given in the form the components
+  store (`OutcomesFound`; after `fix:` f335599 no longer needed to find the outcome, but the value theorem is proved for
+  queries whose outcomes are in this minimal form) -/
+  foundRaw : ∀ p ∈ o, p.1 ∈ deriveVars comps (eventVars o)
   outSame : ∀ p ∈ o, ∀ q ∈ o, p.1.name = q.1.name → p = q
   noSelf : ∀ p ∈ o ++ c, p.1.name ∉ subNames p.1
   cons : ∀ p ∈ o ++ c, ConsistentSubs p.1.ivs
@@ -99,7 +102,19 @@ theorem linkClass_of (g : MG Name) (o c : Event) (h : ctfTRSoundClass g o c = tr
     rw [hc] at h
     simp only [Bool.and_eq_true, decide_eq_true_eq] at h
     obtain ⟨⟨⟨⟨h1, h2⟩, h4⟩, h5⟩, h6⟩ := h
-    refine ⟨comps, ⟨hc, ?_, h2, ?_, ?_, ?_, ?_⟩⟩
+    have hraw : ∀ p ∈ o, p.1 ∈ deriveVars comps (eventVars o) := by
+      intro p hp
+      unfold OutcomesFound at h2
+      rw [dstarVars_eq, hc] at h2
+      simp only [Except.bind] at h2
+      cases hlk : lookupOutcomes g o c with
+      | error e => rw [hlk] at h2; cases h2
+      | ok lk =>
+        rw [hlk] at h2
+        simp only [List.all_eq_true] at h2
+        obtain ⟨C, hC, hpC, _⟩ := (mem_deriveVars comps _ p.1).1 ((mem'_iff _ _).1 (h2 p hp))
+        exact (mem_deriveVars comps _ p.1).2 ⟨C, hC, hpC, p.1, hpC, (mem_eventVars o _).2 ⟨p, hp, rfl⟩⟩
+    refine ⟨comps, ⟨hc, ?_, hraw, ?_, ?_, ?_, ?_⟩⟩
     · intro a ha b hb hab
       rw [List.all_eq_true] at h1
       have := h1 a ha
@@ -146,6 +161,39 @@ theorem linkClass_of (g : MG Name) (o c : Event) (h : ctfTRSoundClass g o c = tr
         rw [h'] at this
         cases this
       · exact h'
+
+/-! ### inside the class the lookup keys are the outcomes themselves -/
+
+theorem forall₂_eq_of {α : Type} {R : α → α → Prop} : ∀ {l l' : List α}, List.Forall₂ R l l' →
+    (∀ a ∈ l, ∀ b ∈ l', R a b → b = a) → l' = l
+  | _, _, .nil, _ => rfl
+  | _, _, .cons (a := a) (b := b) hab hrest, h => by
+    rw [h a List.mem_cons_self b List.mem_cons_self hab,
+      forall₂_eq_of hrest (fun a' ha' b' hb' => h a' (List.mem_cons_of_mem _ ha') b' (List.mem_cons_of_mem _ hb'))]
+
+/-- **inside `ctfTRSoundClass` every outcome is its own lookup key**: the key `‖Y_x‖` is a member of the components
+(`line2C_ok`), so is the raw outcome (`foundRaw`), they name the same vertex, and the components name every vertex in one
+world — so lines 1-2 of Algorithm 3 are `line2CRaw` -/
+theorem lookup_self (g : MG Name) (hg : g.WF) (o c : Event) (comps : List (List Var)) (cls : LinkClass g o c comps)
+    (ho : ∀ p ∈ o, VarOK g p.1) (hc : ∀ p ∈ c, VarOK g p.1) (hos : ∀ p ∈ o, p.1.star = none) :
+    lookupOutcomes g o c = .ok o := by
+  obtain ⟨lk, D, dstar, dNames, hlk, hrel, hfound, hD, _, _, _⟩ := line2C_ok g hg o c ho hc hos
+  have hDeq : D = deriveVars comps (eventVars lk) := by
+    rw [dstarVars_eq, cls.comps_ok, hlk] at hD
+    simp only [Except.bind, Except.ok.injEq] at hD
+    exact hD.symm
+  have hflat : ∀ K : List Var, ∀ v ∈ deriveVars comps K, v ∈ comps.flatten := by
+    intro K v hv
+    obtain ⟨C, hC, hvC, _⟩ := (mem_deriveVars comps K v).1 hv
+    exact List.mem_flatten.2 ⟨C, hC, hvC⟩
+  rw [hlk]
+  congr 1
+  apply forall₂_eq_of hrel
+  intro p hp p' hp' ⟨hn, hv⟩
+  have h1 : p'.1 ∈ comps.flatten := hflat _ _ (by rw [← hDeq]; exact hfound p' hp')
+  have h2 : p.1 ∈ comps.flatten := hflat _ _ (cls.foundRaw p hp)
+  have := cls.oneWorld p'.1 h1 p.1 h2 hn
+  exact Prod.ext this hv
 
 /-! ### the ancestral sets behind the components -/
 
